@@ -139,7 +139,9 @@ func (e *Encoder) writeBuf(payload *bytes.Buffer, pk reflect.Type) (n int, err e
 
 func (e *Encoder) writeCompressed(payload *bytes.Buffer, pk any) (n int, err error) {
 	uncompressedSize := payload.Len()
-	if uncompressedSize < e.compression.threshold {
+	// A data length of 0 is the "not compressed" marker, so an empty payload can
+	// never be sent compressed (it matters for threshold 0, where nothing is below the threshold).
+	if uncompressedSize < e.compression.threshold || uncompressedSize == 0 {
 		// Under the threshold, there is nothing to do.
 		n, err = util.WriteVarIntN(e.wr, uncompressedSize+1) // packet length
 		if err != nil {
